@@ -256,6 +256,16 @@ where
 
                 if di == 0 {
                     self.vmp_apply_dft_to_dft(&mut res_dft, &a_dft, &ggsw.data, 0, scratch_2);
+
+                    // The limbs ignored above are accumulated into by the next digits:
+                    // clears them so that the result does not depend on the prior content of res_dft.
+                    let size_di0: usize = res_dft.size();
+                    res_dft.set_size(ggsw.size());
+                    for col in 0..cols {
+                        for j in size_di0..res_dft.size() {
+                            res_dft.zero_at(col, j);
+                        }
+                    }
                 } else {
                     // Overwrite tmp with shifted product, then fold into res_dft.
                     res_dft_tmp.set_size(res_dft.size());
